@@ -72,7 +72,14 @@ type sched struct {
 	finished chan struct{}
 	aborted  bool
 	nextID   int
+	quiet    bool
 }
+
+// Quiet switches branching off (on) for the running execution: while on, every scheduling point takes the
+// default choice (the running thread if still enabled, else the lowest thread id) and is not recorded as a
+// choice point. Harness bodies use it for a setup phase that needs lindb's own controlled threads (event
+// loops) but whose interleavings are not part of the scenario. Run resets it.
+func Quiet(on bool) { s.quiet = on }
 
 var s = &sched{}
 
@@ -144,6 +151,7 @@ func Run(prefix []int, horizon int, body func()) *Result {
 	s.horizon = horizon
 	s.finished = make(chan struct{})
 	s.aborted = false
+	s.quiet = false
 	s.nextID = 0
 	s.active = true
 	t := s.newThread("main")
@@ -338,7 +346,7 @@ func (sc *sched) schedule(self *Thread) {
 		}
 	}
 	choice := 0
-	if len(enabled) > 1 {
+	if len(enabled) > 1 && !sc.quiet {
 		if sc.pos < len(sc.prefix) {
 			choice = sc.prefix[sc.pos]
 			if choice < 0 || choice >= len(enabled) {
